@@ -214,9 +214,10 @@ def dfa_to_gnfa(D: DFA) -> GNFA:
     q0 = D.q0
     F = D.F
 
-    # TODO: use an identifier generator to avoid name clashes
-    q_start = State('start')
-    q_accept = State('accept')
+    # the two added states are called start and accept, unless D has states with these names
+    from gambatools.dfa_algorithms import fresh_state
+    q_start = State('start') if State('start') not in Q else fresh_state(Q, 'start')
+    q_accept = State('accept') if State('accept') not in Q else fresh_state(Q, 'accept')
     assert q_start not in Q
     assert q_accept not in Q
 
